@@ -178,4 +178,51 @@ def showSeq {α : Type} (sT : α → List Nat) (sep : Nat) : List α → List Na
   | [v] => sT v
   | v :: r => sT v ++ sep :: showSeq sT sep r
 
+/-! ### enumerations (`EnumClass`, src/string_convert.cpp:483-524): the constants are looked up in the declaration text
+  `name [= value], name [= value], …` the `POTASSCO_ENUM` macros keep -/
+
+def isStop (c : Nat) : Bool := c == 32 || c == 44 || c == 61        -- " ,="
+/-- `strcspn(x, " ,=")` -/
+def keyLen (x : List Nat) : Nat := (x.takeWhile (fun c => !isStop c)).length
+def skipSp (x : List Nat) : List Nat := x.dropWhile (· == 32)
+
+/-- `find_kv`: walks the declaration; `cVal` is the value the next constant gets unless it has an explicit one.
+    returns the name and value of the first constant with the wanted value or the wanted name. fuel = characters + 1 -/
+def findKv (sKey : Option (List Nat)) (iKey : Option Int) : Nat → List Nat → Int → Option (List Nat × Int)
+  | 0, _, _ => none
+  | f + 1, args, cVal =>
+    let sLen := keyLen args
+    let v0 := skipSp (args.drop sLen)
+    let r : Int × List Nat :=
+      if v0.head? = some 61 then
+        match parseSigned (v0.drop 1) (-2147483648) 2147483647 with
+        | some (n, u) => (n, skipSp ((v0.drop 1).drop u))
+        | none => (cVal, skipSp (v0.drop 1))
+      else (cVal, v0)
+    if iKey = some r.1 ∨ sKey = some (args.take sLen) then some (args.take sLen, r.1)
+    else if r.2.head? = some 44 then findKv sKey iKey f (skipSp (r.2.drop 1)) (r.1 + 1)
+    else none
+
+structure EnumClass where
+  rep : List Nat
+  min : Int
+  max : Int
+
+def EnumClass.find (e : EnumClass) (sKey : Option (List Nat)) (iKey : Option Int) : Option (List Nat × Int) :=
+  findKv sKey iKey (e.rep.length + 1) e.rep e.min
+def EnumClass.isValid (e : EnumClass) (v : Int) : Bool := decide (e.min ≤ v) && decide (v ≤ e.max) && (e.find none (some v)).isSome
+
+/-- `EnumClass::convert(const char*, int&)`: (characters used, value); used = 0: no constant -/
+def EnumClass.parse (e : EnumClass) (x : List Nat) : Nat × Option Int :=
+  match parseSigned x (-2147483648) 2147483647 with
+  | some (v, u) => if e.isValid v then (u, some v) else (0, none)
+  | none =>
+    let k := x.take (keyLen x)
+    match e.find (some k) none with
+    | some (_, v) => (k.length, some v)
+    | none => (0, none)
+
+/-- `EnumClass::convert(int, const char*&)`: the name of the first constant with that value -/
+def EnumClass.nameOf (e : EnumClass) (v : Int) : Option (List Nat) := (e.find none (some v)).map (·.1)
+
 end PotasscoVerif.StringConvert
